@@ -33,9 +33,11 @@ def run(ctx):
     for _ in range(ctx.n(40000, 1500000)):
         strings.append(core.rand_vector("3", rng, p_absent=rng.choice([0.1, 0.4, 0.7])))
     strings += core.singletons("3", rng, ctx.n(500, 5184))
+    strings += core.special("3", rng, ctx.n(6000, 120000))
     ctx.extra["exhaustive_part"] = "all %d base vectors (2 minor versions x 2592)" % base_n
     for i in range(0, len(strings), 200000):
         scoring.check_scores(ctx, "3", strings[i:i + 200000], "v3")
+    scoring.extra_probes(ctx, "3", strings, "v3")
     if ctx.tier == "thorough" and ctx.scale == 1:
         # the whole quotient of the quantifier: 2 x 2592 x 100 base/temporal cases and 2 x 2592 x 27 x 48
         # environmental cases (effective requirement x modified assignments), one spelling each
